@@ -561,68 +561,79 @@ func judgeStruct(call caller, sch *ref.Schema, sess *drv.Session, se structExp) 
 		return it, nil
 	}
 
-	resp, err := call(map[string]interface{}{"op": "new", "type": ti.Key})
-	if err != nil {
-		return it, err
-	}
-	if p, ok := resp["panic"]; ok {
-		return fail("constructing and inspecting a fresh object panicked: %v", p)
-	}
-	wantNew := ref.NewStruct()
-	for _, f := range st.Fields {
-		if d, ok := defs[f.ID]; ok {
-			wantNew.F[f.ID] = d
-		} else if z := goZero(f); z != nil {
-			wantNew.F[f.ID] = z
+	// two passes: the second one constructs and inspects fresh objects after ANOTHER object's
+	// containers and nested structs (obtained from the constructor and from InitDefault) were
+	// modified in place: declared defaults must not be shared between objects
+	for pass := 0; pass < 2; pass++ {
+		req := map[string]interface{}{"op": "new", "type": ti.Key}
+		after := ""
+		if pass == 1 {
+			req["after_mutation"] = true
+			after = " (after another object's default containers were modified in place)"
 		}
-	}
-	// (1) NewX() and InitDefault() on a zero struct
-	for _, src := range []string{"value", "initdefault"} {
-		raw, present := resp[src]
-		if !present {
-			continue // no InitDefault method under this configuration
-		}
-		what := map[string]string{"value": "the constructor", "initdefault": "InitDefault() on a zero struct"}[src]
-		got, err := parseW(top, raw)
+		resp, err := call(req)
 		if err != nil {
-			return fail("%s yields an object that does not fit the schema: %v", what, err)
+			return it, err
 		}
-		if err := same(top, wantNew, got, se.Name); err != nil {
-			return fail("%s does not leave declared defaults in fields with a default and zero/nil elsewhere\n  %v\n  want %s\n  got  %s", what, err, show(wantNew), show(got))
+		if p, ok := resp["panic"]; ok {
+			return fail("constructing and inspecting a fresh object panicked%s: %v", after, p)
 		}
-	}
-	// (2) getters / IsSet on the fresh object: a field with a default yields it, others yield zero
-	if err := checkInspect(st, defs, resp["inspect"], "on a freshly constructed object", func(f *ref.FieldT) (ref.V, *bool, bool) {
-		if d, ok := defs[f.ID]; ok {
-			if f.Req == idl.ReqOptional && ref.IsScalar(f.Type) {
-				no := false
-				return d, &no, true // holds exactly the default: not set (granted convention)
+		wantNew := ref.NewStruct()
+		for _, f := range st.Fields {
+			if d, ok := defs[f.ID]; ok {
+				wantNew.F[f.ID] = d
+			} else if z := goZero(f); z != nil {
+				wantNew.F[f.ID] = z
+			}
+		}
+		// (1) NewX() and InitDefault() on a zero struct
+		for _, src := range []string{"value", "initdefault"} {
+			raw, present := resp[src]
+			if !present {
+				continue // no InitDefault method under this configuration
+			}
+			what := map[string]string{"value": "the constructor", "initdefault": "InitDefault() on a zero struct"}[src] + after
+			got, err := parseW(top, raw)
+			if err != nil {
+				return fail("%s yields an object that does not fit the schema: %v", what, err)
+			}
+			if err := same(top, wantNew, got, se.Name); err != nil {
+				return fail("%s does not leave declared defaults in fields with a default and zero/nil elsewhere\n  %v\n  want %s\n  got  %s", what, err, show(wantNew), show(got))
+			}
+		}
+		// (2) getters / IsSet on the fresh object: a field with a default yields it, others yield zero
+		if err := checkInspect(st, defs, resp["inspect"], "on a freshly constructed object"+after, func(f *ref.FieldT) (ref.V, *bool, bool) {
+			if d, ok := defs[f.ID]; ok {
+				if f.Req == idl.ReqOptional && ref.IsScalar(f.Type) {
+					no := false
+					return d, &no, true // holds exactly the default: not set (granted convention)
+				}
+				return d, nil, true
+			}
+			return getterZero(f.Type), nil, true
+		}); err != nil {
+			return fail("%v", err)
+		}
+		// (3) a zero struct: optional scalars with a default hold 0 (set iff 0 differs from the default);
+		//     optional containers/structs are nil = unset, the getter yields the declared default
+		if err := checkInspect(st, defs, resp["zero_inspect"], "on a zero struct"+after, func(f *ref.FieldT) (ref.V, *bool, bool) {
+			if f.Req != idl.ReqOptional {
+				return nil, nil, false
+			}
+			d, has := defs[f.ID]
+			if !has {
+				return getterZero(f.Type), nil, true
+			}
+			if ref.IsScalar(f.Type) {
+				z := ref.Zero(f.Type)
+				set := !sameScalar(z, d)
+				return z, &set, true
 			}
 			return d, nil, true
+		}); err != nil {
+			return fail("%v", err)
 		}
-		return getterZero(f.Type), nil, true
-	}); err != nil {
-		return fail("%v", err)
-	}
-	// (3) a zero struct: optional scalars with a default hold 0 (set iff 0 differs from the default);
-	//     optional containers/structs are nil = unset, the getter yields the declared default
-	if err := checkInspect(st, defs, resp["zero_inspect"], "on a zero struct", func(f *ref.FieldT) (ref.V, *bool, bool) {
-		if f.Req != idl.ReqOptional {
-			return nil, nil, false
-		}
-		d, has := defs[f.ID]
-		if !has {
-			return getterZero(f.Type), nil, true
-		}
-		if ref.IsScalar(f.Type) {
-			z := ref.Zero(f.Type)
-			set := !sameScalar(z, d)
-			return z, &set, true
-		}
-		return d, nil, true
-	}); err != nil {
-		return fail("%v", err)
-	}
+	} // passes
 	// (4) every optional field absent (constructor + nil for pointers/containers): getters yield the declared default
 	hasOpt := false
 	for _, f := range st.Fields {
